@@ -152,6 +152,68 @@ type Pather struct {
 	Loads map[*ssa.UnOp]string
 }
 
+// addrBase renders the base of a field/element address; a local that only holds
+// a spilled copy of one value (e.g. an array parameter) is named by that value.
+func (p *Pather) addrBase(v ssa.Value) string {
+	if a, ok := v.(*ssa.Alloc); ok {
+		if sv, ok := p.single[a]; ok {
+			if _, isLit := p.arrayLit(a); !isLit {
+				switch sv.(type) {
+				case *ssa.Parameter, *ssa.UnOp, *ssa.Call, *ssa.Extract:
+					return p.Path(sv)
+				}
+			}
+		}
+	}
+	return p.Path(v)
+}
+
+// phiCyclic reports whether a phi depends on itself (a loop-carried variable).
+func (p *Pather) phiCyclic(x *ssa.Phi) bool {
+	seen := map[ssa.Value]bool{}
+	var dep func(v ssa.Value, d int) bool
+	dep = func(v ssa.Value, d int) bool {
+		if v == ssa.Value(x) && d > 0 {
+			return true
+		}
+		if seen[v] || d > 40 {
+			return false
+		}
+		seen[v] = true
+		in, ok := v.(ssa.Instruction)
+		if !ok {
+			return false
+		}
+		for _, op := range in.Operands(nil) {
+			if *op != nil && dep(*op, d+1) {
+				return true
+			}
+		}
+		return false
+	}
+	return dep(x, 0)
+}
+
+// phiName names loop-carried phis iv1, iv2, … in block order (no identifiers).
+func (p *Pather) phiName(x *ssa.Phi) string {
+	n := 0
+	for _, b := range p.fn.Blocks {
+		for _, in := range b.Instrs {
+			ph, ok := in.(*ssa.Phi)
+			if !ok {
+				break
+			}
+			if p.phiCyclic(ph) {
+				n++
+				if ph == x {
+					return fmt.Sprintf("iv%d", n)
+				}
+			}
+		}
+	}
+	return "iv?"
+}
+
 // ResetMemo forgets memoised paths (used when the path-sensitive load map changes).
 func (p *Pather) ResetMemo() { p.memo = map[ssa.Value]string{} }
 
@@ -233,7 +295,7 @@ func (p *Pather) path(v ssa.Value) string {
 	case *ssa.Function:
 		return "func:" + FuncName(x)
 	case *ssa.FieldAddr:
-		return p.Path(x.X) + "." + fieldName(x.X.Type(), x.Field)
+		return p.addrBase(x.X) + "." + fieldName(x.X.Type(), x.Field)
 	case *ssa.Field:
 		return p.Path(x.X) + "." + fieldName(x.X.Type(), x.Field)
 	case *ssa.UnOp:
@@ -279,7 +341,7 @@ func (p *Pather) path(v ssa.Value) string {
 			hi = p.Path(x.High)
 		}
 		if lo == "" && hi == "" {
-			return p.Path(x.X)
+			return p.addrBase(x.X)
 		}
 		// x[a:][b:] == x[a+b:]
 		if inner, ok := x.X.(*ssa.Slice); ok && x.High == nil && inner.High == nil && inner.Low != nil && x.Low != nil {
@@ -289,7 +351,7 @@ func (p *Pather) path(v ssa.Value) string {
 				}
 			}
 		}
-		base := p.Path(x.X)
+		base := p.addrBase(x.X)
 		if i := trailingOpenSlice(base); i >= 0 && x.High == nil {
 			if b, okB := ConstInt(x.Low); okB {
 				var a int64
@@ -299,7 +361,7 @@ func (p *Pather) path(v ssa.Value) string {
 		}
 		return base + "[" + lo + ":" + hi + "]"
 	case *ssa.IndexAddr:
-		base := p.Path(x.X)
+		base := p.addrBase(x.X)
 		if i := trailingOpenSlice(base); i >= 0 {
 			if k, okK := ConstInt(x.Index); okK {
 				var a int64
@@ -325,6 +387,9 @@ func (p *Pather) path(v ssa.Value) string {
 		}
 		return "call:" + name + "(" + strings.Join(as, ",") + ")"
 	case *ssa.Phi:
+		if p.phiCyclic(x) {
+			return p.phiName(x)
+		}
 		set := map[string]bool{}
 		for _, e := range x.Edges {
 			set[p.Path(e)] = true
@@ -393,6 +458,10 @@ func ArrayLitElems(a *ssa.Alloc) (elems []ssa.Value, ok bool) {
 			}
 		case *ssa.Slice:
 		case *ssa.DebugRef:
+		case *ssa.UnOp:
+			if x.Op != token.MUL {
+				return nil, false
+			}
 		default:
 			return nil, false
 		}
